@@ -225,6 +225,7 @@ pub struct Sched {
     pub close_rep_at: Option<usize>,
     pub watchdog_ms: u64,
     pub terminate_alone: bool,
+    pub fail_after_terminate: bool,
 }
 
 pub const SPECS: &[&str] = &[
@@ -387,6 +388,7 @@ pub fn run_schedule_ex(s: &Sched, replay: Option<(&[Vec<Action>], bool)>) -> (Ob
     let mut rng = Prng::new(s.seed ^ 0x99);
     let mut completions = 0usize;
     let mut finished = false;
+    let mut failed_after = false;
 
     for round in 0..s.max_rounds {
         // --- harness actions before the poll
@@ -452,8 +454,12 @@ pub fn run_schedule_ex(s: &Sched, replay: Option<(&[Vec<Action>], bool)>) -> (Ob
                 if s.order == 2 && rng.chance(1, 2) {
                     chosen.reverse();
                 }
+                let terminated = shared.0.lock().unwrap().log.iter().any(|e| matches!(e, Ev::Terminate));
                 for sd in chosen {
-                    let out = if Some(completions) == s.fail_at {
+                    let out = if s.fail_after_terminate && terminated && !failed_after {
+                        failed_after = true;
+                        RawOut::Err(900)
+                    } else if Some(completions) == s.fail_at {
                         RawOut::Err(100 + completions as u64)
                     } else if Some(completions) == s.fail2_at {
                         RawOut::Err(100 + completions as u64)
@@ -714,7 +720,7 @@ pub fn gen_sched(master: u64, idx: u64, profile: &str) -> Sched {
     let twin = profile == "twin";
     // twins: every completion is decided by the harness (no evaluation ends by itself on the abort),
     // and no channel is closed (launch's own select order is random there)
-    let honour_num = if twin { 0 } else { *r.pick(&[8, 8, 8, 4, 0]) };
+    let honour_num = if twin { 0 } else { *r.pick(&[8, 8, 8, 4, 0, 0]) };
     let close_cmd_at = if !twin && r.chance(1, 30) { Some(r.below(est.max(1) + 2)) } else { None };
     let close_rep_at = if !twin && r.chance(1, 30) { Some(r.below(est.max(1) + 2)) } else { None };
     let spec = r.below(SPECS.len());
@@ -743,6 +749,7 @@ pub fn gen_sched(master: u64, idx: u64, profile: &str) -> Sched {
         close_rep_at,
         watchdog_ms: 1500,
         terminate_alone: profile == "twin",
+        fail_after_terminate: (profile == "stop" || profile == "fail") && terminate_at.is_some() && r.chance(1, 3),
     }
 }
 
